@@ -53,6 +53,7 @@ def types_interp(t) -> "microeval.Interp":
         else:
             tit.globals[name] = ClassRef(name, c.kind, [])
     tit.globals.update(t.str_consts)
+    tit.globals.setdefault("MappingProxyType", ("host", lambda d: d))
     for k, v in t.other_consts.items():
         tit.globals.setdefault(k, v)
     for name, node in t.tables.items():
